@@ -178,13 +178,37 @@ def run(ctx):
     def d_(inst):
         bad = []
         l = F.fn("WalArchiveRecovery::list_archives")
-        srt = calls(l, r"slice::(sort|sort_unstable|sort_by|sort_by_key)$", 1)
+        ss = sort_sites(F, l)
+        if not ss:
+            raise AnchorMissing("site: a slice sort executed by WalArchiveRecovery::list_archives (directly or through a crate helper)")
+        # the call sites inside list_archives through which a sort is reached
+        srt = sort_call_sites(F, l)
         oks = [(bb, v) for (bb, j, v, dst) in l.aggregates("result::Result", "Ok") if dst == [0]]
         for bb, v in oks:
             L = l.origins(v["o"][0])
             fresh_empty = all(x[0] == "call" and norm_path(x[1]).endswith("Vec::new") for x in L)
             if not fresh_empty and not any(l.dominates_edge((s.bb, s.to), bb) for s in srt):
                 bad.append(("unsorted-archive-list", "list_archives can return an unsorted list", None))
+        # the order is log order: either the comparator compares parsed log ids, or the names are padded to the full width of a u64
+        g = F.fn("WalArchive::generate_filename")
+        widths = []
+        for t in fmt_templates(g):
+            if t is None:
+                widths.append(None)
+                continue
+            for i_, part in enumerate(t):
+                if part[0] == "arg" and i_ > 0 and t[i_ - 1][0] == "lit" and t[i_ - 1][1].endswith("wal-"):
+                    widths.append(part[1]["width"] if part[1]["zero"] else 0)
+        if not widths:
+            raise AnchorMissing("the log id placeholder after \"wal-\" in WalArchive::generate_filename")
+        padded = all(w is not None and w >= 20 for w in widths)
+        for sb, sc in ss:
+            natural = bool(re.search(r"slice::(sort|sort_unstable)$", sc.nname))
+            numeric = (not natural) and reaches_int_parse(F, sb)
+            if not numeric and not padded:
+                bad.append(("archive-order-by-name", "archives are ordered by file name (%s in %s) but the log id in the name is padded to %s digits only: wal-100000-* sorts before wal-99999-*" % (
+                    sc.nname.split("::")[-1], sb.key.split("::")[-1], widths), sp(sb, sc.bb)))
+        inst.sites += ["log id pad width %s, %d sort site(s): %s" % (widths, len(ss), [(sb.key.split("::")[-1], sc.nname.split("::")[-1]) for sb, sc in ss])]
         r = F.fn("WalArchiveRecovery::recover_all")
         la = one(r, r"WalArchiveRecovery::list_archives$")
         nx = [c for c in for_headers(r)]
@@ -195,10 +219,7 @@ def run(ctx):
             if not c.cleanup and re.search(r"Iterator::rev$|slice::(reverse|sort\w*)$|par_", c.nname):
                 bad.append(("recover-reorders:%s" % c.nname.split("::")[-1], "recover_all re-orders archives or entries (%s)" % c.nname, None))
         ext = one(r, r"Extend.*>::extend$|Vec::extend$")
-        # file names begin with the zero padded log id
-        g = F.fn("WalArchive::generate_filename")
-        fmts = [c for c in g.calls if not c.cleanup]
-        inst.sites = [sp(l, s.bb) for s in srt] + [sp(r, la.bb), sp(r, ext.bb)]
+        inst.sites += [sp(l, s.bb) for s in srt] + [sp(r, la.bb), sp(r, ext.bb)]
         return bad
     ctx.run("C19.d", "K1 DOM", "WalArchiveRecovery::recover_all / list_archives", "archives are decoded in sorted (log id) order", d_)
 
